@@ -163,18 +163,18 @@ Section Rep.
   Context {A : Type}.
   Implicit Types p : bytes -> res (A * bytes).
 
-  Definition elem_ok (B : nat) p (e : bytes) : Prop :=
-    eats B p e /\ strict B p e /\ 1 <= List.length e.
-
-  Lemma elem_ok_weak B p es :
-    Forall (elem_ok B p) es -> Forall (fun e => eats B p e /\ strict B p e) es.
-  Proof. intro H. eapply Forall_impl; [|exact H]. intros e [He [Hs _]]. split; assumption. Qed.
+  Definition elem_ok (B : nat) p (e : bytes) : Prop := eats B p e /\ strict B p e.
 
   Lemma concat_len_ge (es : list bytes) :
     Forall (fun e => 1 <= List.length e) es -> List.length es <= List.length (concat es).
   Proof.
     intro H. induction H as [|e es He Hes IH]; [cbn; lia|].
     cbn [concat List.length]. rewrite app_length. lia.
+  Qed.
+
+  Lemma concat_nil (es : list bytes) : Forall (fun e => e = []) es -> concat es = [].
+  Proof.
+    intro H. induction H as [|e es He Hes IH]; [reflexivity|]. cbn [concat]. rewrite He, IH. reflexivity.
   Qed.
 
   Lemma rep_slow_S p f n bs acc :
@@ -193,11 +193,11 @@ Section Rep.
   Qed.
 
   Lemma rep_slow_strict B p es :
-    Forall (elem_ok B p) es ->
+    Forall (fun e => elem_ok B p e /\ 1 <= List.length e) es ->
     forall k fuel acc, k < List.length (concat es) -> k < B -> k < fuel ->
       fails (rep_slow p fuel (N.of_nat (List.length es)) (firstn k (concat es)) acc).
   Proof.
-    intro Hes. induction Hes as [|e es [Heat [Hstr Hne]] Hes IH]; intros k fuel acc Hk HB Hfuel.
+    intro Hes. induction Hes as [|e es [[Heat Hstr] Hne] Hes IH]; intros k fuel acc Hk HB Hfuel.
     - cbn in Hk. lia.
     - destruct fuel as [|f]; [lia|].
       rewrite rep_slow_S by (cbn [List.length]; lia).
@@ -217,24 +217,43 @@ Section Rep.
         apply IH; lia.
   Qed.
 
-  Lemma rep_strict B p es :
-    Forall (elem_ok B p) es -> strict B (rep p (N.of_nat (List.length es))) (concat es).
+  Lemma Forall_and_l {X} (P Q : X -> Prop) (l : list X) :
+    Forall P l -> Forall Q l -> Forall (fun x => P x /\ Q x) l.
   Proof.
-    intros Hes k Hk HB. unfold rep.
-    destruct (N.ltb (N.of_nat (List.length (firstn k (concat es)))) (N.of_nat (List.length es))).
-    - apply (rep_slow_strict B p es Hes k _ [] Hk HB). rewrite firstn_len_lt by exact Hk. lia.
-    - rewrite Nat2N.id. exact (rep_nat_strict B p es (elem_ok_weak B p es Hes) k Hk HB).
+    intros HP HQ. induction HP as [|x l Hx HP IH]; [constructor|].
+    inversion HQ as [|x' l' Hqx HQ']; subst. constructor; [split; assumption|apply IH; exact HQ'].
   Qed.
 
-  Lemma rep_eats B p es :
-    Forall (elem_ok B p) es -> eats B (rep p (N.of_nat (List.length es))) (concat es).
+  (* zero-width elements: the encoding of the members is empty and has no proper prefix *)
+  Lemma rep_strict B p es :
+    Forall (elem_ok B p) es -> uniform es -> strict B (rep p (N.of_nat (List.length es))) (concat es).
   Proof.
-    intros Hes rest Hlen. unfold rep.
-    assert (Hge : List.length es <= List.length (concat es)).
-    { apply concat_len_ge. eapply Forall_impl; [|exact Hes]. intros e [_ [_ Hne]]. exact Hne. }
-    replace (N.ltb (N.of_nat (List.length (concat es ++ rest))) (N.of_nat (List.length es))) with false
-      by (symmetry; apply N.ltb_ge; rewrite app_length; lia).
-    rewrite Nat2N.id. exact (rep_nat_eats B p es (elem_ok_weak B p es Hes) rest Hlen).
+    intros Hes [Hsz|Hnil] k Hk HB; [|rewrite (concat_nil es Hnil) in Hk; cbn in Hk; lia].
+    unfold rep.
+    destruct (N.ltb (N.of_nat (List.length (firstn k (concat es)))) (N.of_nat (List.length es))).
+    - apply (rep_slow_strict B p es (Forall_and_l _ _ es Hes Hsz) k _ [] Hk HB).
+      rewrite firstn_len_lt by exact Hk. lia.
+    - rewrite Nat2N.id. exact (rep_nat_strict B p es Hes k Hk HB).
+  Qed.
+
+  (* zero-width elements, count beyond the input: the loop stops at the first element, which
+     consumed nothing *)
+  Lemma rep_eats B p es :
+    Forall (elem_ok B p) es -> uniform es -> eats B (rep p (N.of_nat (List.length es))) (concat es).
+  Proof.
+    intros Hes Hu rest Hlen. unfold rep.
+    destruct (N.ltb (N.of_nat (List.length (concat es ++ rest))) (N.of_nat (List.length es))) eqn:Hlt.
+    - destruct Hu as [Hsz|Hnil].
+      + pose proof (concat_len_ge es Hsz) as Hge. rewrite app_length in Hlt. lia.
+      + rewrite (concat_nil es Hnil) in Hlen |- *. cbn [app] in Hlen |- *.
+        destruct es as [|e es']; [exists []; reflexivity|].
+        rewrite rep_slow_S by (cbn [List.length]; lia).
+        inversion Hes as [|e0 es0 [Heat _] Hes0]; subst. inversion Hnil as [|e1 es1 He1 Hnil1]; subst.
+        destruct (Heat rest Hlen) as [x Hx]. cbn [app] in Hx. rewrite Hx.
+        replace (Nat.ltb (List.length rest) (List.length rest)) with false
+          by (symmetry; apply Nat.ltb_ge; lia).
+        eexists. reflexivity.
+    - rewrite Nat2N.id. exact (rep_nat_eats B p es Hes rest Hlen).
   Qed.
 End Rep.
 
